@@ -10,6 +10,9 @@ for p in $props; do
   echo "clean $p: exit=$rc $(echo "$out" | grep '^gocv:' | cut -c1-140)"
   if [ $rc -ne 0 ]; then fail=1; echo "$out" | grep VIOLATION | head -5; fi
 done
+# evidence files describe the unchanged tree: keep them out of the seeded runs
+tmpev=$(mktemp -d /tmp/gocv_ev.XXXXXX); cp -a /verif/evidence/. $tmpev/
+trap 'cp -a $tmpev/. /verif/evidence/; rm -rf $tmpev' EXIT
 for d in seeded/*/; do
   pid=$(python3 -c "import json;print(json.load(open('$d/meta.json'))['property'])")
   det=$(python3 -c "import json;print(json.load(open('$d/meta.json'))['detection'])")
